@@ -30,6 +30,9 @@ impl Head {
 
     pub fn write(&mut self, data: &[u8]) -> Result<(), IoError> {
         fail_point!("write-head");
+        // the head file handle shares its offset with the read handle kept in the open-file
+        // cache (`try_clone`), a retrieve moves it: always write at the tracked end
+        self.file.seek(SeekFrom::Start(self.bytes))?;
         self.file.write_all(data)?;
         self.bytes += data.len() as u64;
         Ok(())
